@@ -390,7 +390,7 @@ func c04Reuse(r *fw.Rec, f c04Field) {
 }
 
 func c04(c *fw.Ctx) {
-	c.Rule("all six fields: every product a*b (exhaustive, up to 4096^2), every inverse, log and exp compared with shift-and-xor multiplication modulo the primitive polynomial; RS encode compared with polynomial long division and direct syndrome evaluation; RS decode must restore the exact word: short codes (n <= 20) with every single and double error position, long codes with random (k, r) up to n = |F|-1 and 0, 1, t-1, t errors at random, extreme and burst positions; histories of 24 words with varying parity counts on ONE encoder and ONE decoder instance (large then small r, re-encoding in place); distinct = distinct field elements + distinct (field, k, r, data)")
+	c.Rule("all six fields: every product a*b (exhaustive, up to 4096^2), every inverse, log and exp compared with shift-and-xor multiplication modulo the primitive polynomial; RS encode compared with polynomial long division and direct syndrome evaluation; RS decode must restore the exact word: short codes (n <= 20) with every single and double error position, long codes with random (k, r) up to n = |F|-1 and 0, 1, t-1, t errors at random, extreme and burst positions; histories of 24 words with varying parity counts on ONE encoder and ONE decoder instance (large then small r, re-encoding in place); 14 operations (Inverse, Exp, Log, Multiply, GetZero, GetOne, BuildMonomial, polynomial evaluation and product, Encode, Decode, the same on a freshly constructed field) each as the FIRST use of each field in a fresh process; distinct = distinct field elements + distinct (field, k, r, data)")
 	c.Assume("more than floor(r/2) errors are outside the statement and never generated")
 	fields := c04Fields()
 	for _, f := range fields {
@@ -411,6 +411,11 @@ func c04(c *fw.Ctx) {
 		c.Run("exp/"+f.ref.Name, func(r *fw.Rec) { c04Exp(r, f) })
 	}
 	c.Exhaustive("GF multiplication, inverse, exp, log over all elements of all six fields")
+	// every operation as the first thing a fresh process does with a field
+	for fi := range fields {
+		fi := fi
+		c.Run("cold/"+fields[fi].ref.Name, func(r *fw.Rec) { c04Cold(r, fi) })
+	}
 	// short codes, exhaustive single/double positions
 	reps := c.Pick(1, 6)
 	for _, f := range fields {
@@ -446,6 +451,126 @@ func c04(c *fw.Ctx) {
 	}
 	c.Floor("rs_reuse_histories", int64(6*nreuse*9/10))
 	c.Floor("rs_words_encoded", 1000)
+	c.Floor("cold_start_first_operations", 84)
 	c.Floor("rs_decoded_at_capacity", 500)
 	c.Floor("rs_decoded_clean", 500)
+}
+
+// ---- cold starts: each operation as the very first use of a field in a fresh process
+
+var c04ColdOps = []string{"inverse", "exp", "log", "multiply", "zero", "one", "monomial", "poly-eval", "poly-multiply", "encode", "decode", "fresh-inverse", "fresh-multiply", "string"}
+
+func init() {
+	fw.RegisterCold("c04first", func(arg string) (out string) {
+		defer func() {
+			if p := recover(); p != nil {
+				out = fmt.Sprintf("PANIC %v", p)
+			}
+		}()
+		var fi int
+		var op string
+		fmt.Sscanf(arg, "%d %s", &fi, &op)
+		f := c04Fields()[fi]
+		g := f.lib
+		if op == "fresh-inverse" || op == "fresh-multiply" {
+			g = reedsolomon.NewGenericGF(f.ref.Prim, f.ref.Size, f.ref.Base)
+		}
+		a, b := 2+fi, f.ref.Size-1
+		switch op {
+		case "inverse", "fresh-inverse":
+			for _, x := range []int{a, 1, b, f.ref.Size / 2} {
+				inv, err := g.Inverse(x)
+				if err != nil || f.ref.Mul(x, inv) != 1 {
+					return fmt.Sprintf("Inverse(%d) = %d, %v as the first operation on the field", x, inv, err)
+				}
+			}
+		case "exp":
+			for _, e := range []int{0, 1, 5, f.ref.Size - 2} {
+				if got := g.Exp(e); got != f.ref.Pow(e) {
+					return fmt.Sprintf("Exp(%d) = %d, want %d as the first operation on the field", e, got, f.ref.Pow(e))
+				}
+			}
+		case "log":
+			for _, x := range []int{1, 2, a, b} {
+				l, err := g.Log(x)
+				if err != nil || f.ref.Pow(l) != x {
+					return fmt.Sprintf("Log(%d) = %d, %v as the first operation on the field", x, l, err)
+				}
+			}
+		case "multiply", "fresh-multiply":
+			for _, x := range []int{a, b, 1} {
+				if got := g.Multiply(x, b); got != f.ref.Mul(x, b) {
+					return fmt.Sprintf("Multiply(%d,%d) = %d, want %d as the first operation on the field", x, b, got, f.ref.Mul(x, b))
+				}
+			}
+		case "zero":
+			if z := g.GetZero(); z == nil || !z.IsZero() {
+				return "GetZero() is not the zero polynomial as the first operation on the field"
+			}
+		case "one":
+			if o := g.GetOne(); o == nil || o.GetDegree() != 0 || o.GetCoefficient(0) != 1 {
+				return "GetOne() is not the polynomial 1 as the first operation on the field"
+			}
+		case "monomial":
+			m, err := g.BuildMonomial(3, a)
+			if err != nil || m.GetDegree() != 3 || m.GetCoefficient(3) != a || m.EvaluateAt(2) != f.ref.Mul(a, f.ref.Mul(2, f.ref.Mul(2, 2))) {
+				return fmt.Sprintf("BuildMonomial(3,%d) wrong as the first operation on the field (%v)", a, err)
+			}
+		case "poly-eval":
+			p, err := reedsolomon.NewGenericGFPoly(g, []int{a, 1, b})
+			want := f.ref.Mul(a, f.ref.Mul(3, 3)) ^ 3 ^ b
+			if err != nil || p.EvaluateAt(3) != want {
+				return fmt.Sprintf("EvaluateAt(3) of %d x^2 + x + %d wrong as the first operation on the field (%v)", a, b, err)
+			}
+		case "poly-multiply":
+			p, _ := reedsolomon.NewGenericGFPoly(g, []int{1, a})
+			q, _ := reedsolomon.NewGenericGFPoly(g, []int{1, b})
+			m, err := p.Multiply(q)
+			if err != nil || m.GetDegree() != 2 || m.GetCoefficient(0) != f.ref.Mul(a, b) || m.GetCoefficient(1) != a^b {
+				return fmt.Sprintf("(x+%d)(x+%d) wrong as the first operation on the field (%v)", a, b, err)
+			}
+		case "encode", "decode":
+			k, rr := 5, 4
+			word := make([]int, k+rr)
+			for i := 0; i < k; i++ {
+				word[i] = (a*7 + i*3) % f.ref.Size
+			}
+			if op == "decode" {
+				copy(word[k:], rs.Parity(f.ref, word[:k], rr))
+				orig := append([]int{}, word...)
+				word[1] ^= 1
+				word[6] ^= b
+				if err := reedsolomon.NewReedSolomonDecoder(g).Decode(word, rr); err != nil || fmt.Sprint(word) != fmt.Sprint(orig) {
+					return fmt.Sprintf("Decode as the first operation on the field: %v, word %v, want %v", err, word, orig)
+				}
+			} else {
+				if err := reedsolomon.NewReedSolomonEncoder(g).Encode(word, rr); err != nil {
+					return "Encode as the first operation on the field: " + err.Error()
+				}
+				if want := rs.Parity(f.ref, word[:k], rr); fmt.Sprint(word[k:]) != fmt.Sprint(want) {
+					return fmt.Sprintf("Encode as the first operation on the field: parity %v, long division gives %v", word[k:], want)
+				}
+			}
+		case "string":
+			if g.String() == "" {
+				return "String() empty"
+			}
+		}
+		return "OK"
+	})
+}
+
+// c04Cold runs every operation as the first use of every field, one fresh process each.
+func c04Cold(r *fw.Rec, fi int) {
+	f := c04Fields()[fi]
+	for _, op := range c04ColdOps {
+		out, err := fw.RunCold("c04first", fmt.Sprintf("%d %s", fi, op))
+		r.Evals(1)
+		if err != nil || out != "OK" {
+			r.Violation("model-mismatch", "gf:cold-start:"+op, fmt.Sprintf("%s, fresh process: %s %v", f.ref.Name, out, err), map[string]interface{}{"field": f.ref.Name, "first_operation": op})
+			return
+		}
+		r.Tally("cold_start_first_operations")
+	}
+	r.Nontrivial("cold/" + f.ref.Name)
 }
